@@ -119,6 +119,7 @@ pub fn profile(name: &str) -> Profile {
         "race" => Profile { name: "race", legal_peer: true, race: true, small_limits: true, w_end: 0, max_data: 300, w_peer: 40, w_app: 30, ..base },
         "legal" => Profile { name: "legal", legal_peer: true, w_end: 0, ..base },
         "bp" => Profile { name: "bp", backpressure: true, max_data: 3000, w_io: 14, w_peer: 32, w_app: 36, w_conn_poll: 30, ..base },
+        "bplimits" => Profile { name: "bplimits", backpressure: true, small_limits: true, max_data: 3000, w_io: 14, w_peer: 40, w_app: 28, w_conn_poll: 30, ..base },
         "queue" => Profile { name: "queue", small_limits: true, queue: true, max_data: 100, w_app: 55, w_peer: 25, w_conn_poll: 20, w_io: 2, ..base },
         "bufcap" => Profile { name: "bufcap", bufcap: true, max_data: 30, w_app: 55, w_peer: 15, w_conn_poll: 30, w_io: 1, w_end: 0, ..base },
         "starve" => Profile { name: "starve", starve: true, max_data: 60, w_app: 55, w_peer: 20, w_conn_poll: 25, w_io: 1, w_end: 0, ..base },
@@ -1275,6 +1276,58 @@ pub fn run_random(d: &mut Driver, rng: &mut Rng, p: &Profile, steps: usize) {
                 continue;
             }
         }
+        if p.recv_heavy && d.cfg.role_client {
+            if let Some(op) = pv.queue.pop_front() {
+                log_op(&op);
+                d.exec(&op);
+                done += 1;
+                continue;
+            }
+            if rng.chance(1, 18) {
+                // C19: a stream that is queued for a WINDOW_UPDATE closes and loses its last handle before the connection
+                // task runs again: the pop of that queue is then the only thing that can release the record
+                let nh = d.handles.len();
+                let cands: Vec<(usize, usize)> = (0..nh).filter_map(|h| {
+                    let x = &d.handles[h];
+                    if x.recv.is_none() || x.recv_done || !x.send_done || x.unreleased > 0 { return None; }
+                    pv.streams.iter().position(|s| s.sid == x.sid && s.peer_open && s.peer_head_sent && !s.reset && s.window >= 2).map(|i| (h, i))
+                }).collect();
+                if !cands.is_empty() {
+                    let (h, i) = *rng.pick(&cands);
+                    let total = (pv.streams[i].window.min(pv.conn_window).min(40000)).max(0) as u64;
+                    if total >= 2 {
+                        let sid = pv.streams[i].sid;
+                        let mut left = total;
+                        let mut m: Vec<Value> = vec![];
+                        let mut frames = 0;
+                        while left > 0 {
+                            let n = left.min(16384);
+                            left -= n;
+                            let eos = left == 0;
+                            let off = pv.streams[i].sent_off;
+                            let body: Vec<u8> = (0..n).map(|k| driver::pattern(sid, 1, off + k)).collect();
+                            pv.streams[i].sent_off += n;
+                            m.push(peer_bytes(wire::data(sid, &body, eos, None), json!({"t":"DATA","sid":sid,"len":n,"eos":eos,"pad":null})));
+                            frames += 1;
+                        }
+                        pv.streams[i].window -= total as i64;
+                        pv.conn_window -= total as i64;
+                        pv.streams[i].peer_open = false;
+                        m.push(json!({"op":"conn_poll"}));
+                        for _ in 0..frames { m.push(json!({"op":"poll_data","h":h})); }
+                        m.push(json!({"op":"release","h":h,"n":total}));
+                        if rng.chance(1, 2) { m.push(json!({"op":"clone_fc","h":h})); }
+                        m.push(json!({"op":"drop_response","h":h}));
+                        m.push(json!({"op":"drop_send","h":h}));
+                        m.push(json!({"op":"drop_recv","h":h}));
+                        m.push(json!({"op":"drop_fc","h":h}));
+                        m.push(json!({"op":"conn_poll"}));
+                        pv.queue.extend(m);
+                        continue;
+                    }
+                }
+            }
+        }
         if p.late_reset {
             if let Some(op) = pv.queue.pop_front() {
                 log_op(&op);
@@ -1287,13 +1340,16 @@ pub fn run_random(d: &mut Driver, rng: &mut Rng, p: &Profile, steps: usize) {
                 let cands: Vec<usize> = (0..nh).filter(|&i| d.handles[i].send.is_some() && !d.handles[i].send_done).collect();
                 let resp: Vec<usize> = (0..nh).filter(|&i| d.handles[i].respond.is_some() && d.handles[i].send.is_none() && !d.handles[i].send_done).collect();
                 if !cands.is_empty() {
-                    let h = *rng.pick(&cands);
+                    // prefer streams whose peer side has already ended: END_STREAM of our own then CLOSES the stream while
+                    // frames are still queued / in the codec
+                    let ended: Vec<usize> = cands.iter().copied().filter(|&i| d.handles[i].recv_done || pv.streams.iter().any(|s| s.sid == d.handles[i].sid && !s.peer_open)).collect();
+                    let h = if !ended.is_empty() && rng.chance(3, 4) { *rng.pick(&ended) } else { *rng.pick(&cands) };
                     let code = *rng.pick(&[8u32, 0, 2, 11, 0xdead_beef]);
                     let big = rng.range(70000, 100000);
                     let m: Vec<Value> = match rng.below(6) {
                         0 => vec![json!({"op":"send_data","h":h,"len":big,"eos":true}), json!({"op":"send_reset","h":h,"code":code})],
                         1 => vec![json!({"op":"send_data","h":h,"len":big,"eos":true}), json!({"op":"conn_poll"}), json!({"op":"send_reset","h":h,"code":code})],
-                        2 => vec![json!({"op":"write_mode","mode":"budget","n":rng.range(3, 40)}), json!({"op":"send_data","h":h,"len":rng.range(100, 3000),"eos":true}),
+                        2 => vec![json!({"op":"write_mode","mode":"budget","n":rng.range(3, 40)}), json!({"op":"send_data","h":h,"len": if rng.chance(1, 2) { rng.range(100, 3000) } else { rng.range(17000, 60000) },"eos":true}),
                                   json!({"op":"conn_poll"}), json!({"op":"send_reset","h":h,"code":code}), json!({"op":"write_mode","mode":"all"})],
                         3 => vec![json!({"op":"send_data","h":h,"len":rng.range(0, 50),"eos":true}), json!({"op":"conn_poll"}), json!({"op":"send_reset","h":h,"code":code})],
                         4 => vec![json!({"op":"send_trailers","h":h}), json!({"op":"send_reset","h":h,"code":code})],
